@@ -26,3 +26,23 @@ PROPERTY = dict(level='model_checking',
     outside='the other X.509/CRL/OCSP/PKCS#8/PKCS#12/PEM/key parsers are not yet encoded',
     explanation='All DER primitives of asn1.c and parseGeneralNames are memory-safe on every buffer of every size up to the bound and leave cursor/lengths inside the buffer; stored GeneralNames are NUL-terminated, text entries printable.',
     assumptions=[])
+
+HARNESSES.append(
+    dict(name="ocsp_basic", src="ocsp_basic.c", checks=M, units=["crypto/keyformat/asn1.c", "core/src/psbuf.c"],
+         renames={"crypto/keyformat/x509.c": ["parseSingleResponse", "psX509ParseCert", "psX509FreeCert"]},
+         functions=["ocspParseBasicResponse", "getAsnSequence", "getAsnLength", "getAsnLength32", "getExplicitVersion", "getAsnAlgorithmIdentifier", "parse_nonce_ext"],
+         sources=["crypto/keyformat/x509.c", "crypto/keyformat/asn1.c"],
+         assumptions=["ocsp_basic: input is an object of exactly VF_SIZE bytes, contents arbitrary; parseSingleResponse is a checking stub (slot inside the result array; consumes 1..remaining bytes or fails); digests, psBrokenDownTimeImport and the embedded certificate parser are stubs"],
+         cbmc_flags=["--object-bits", "10"],
+         unwind=12, unwindset={"ocspParseBasicResponse:/while \\(p < seqend\\)/": 6, "vf_bytes:/./": 60, "checkAsnOidDatabase:/while \\(1\\)/": 8, "memcmp.0": 26, "getAsnOID:/./": 60},
+         cases=[dict(name="size%d" % n, tier=t, defs={"VF_SIZE": n}) for n, t in ((40, "quick"), (56, "thorough"))]))
+
+HARNESSES.append(
+    dict(name="dh_params", src="dh_params.c", checks=M, units=["crypto/keyformat/asn1.c", "crypto/math/pstm.c"],
+         renames={"crypto/math/pstm.c": ["pstm_read_asn", "pstm_unsigned_bin_size", "pstm_init_size", "pstm_clear"]},
+         functions=["psPkcs3ParseDhParamBin", "pstm_cmp_d", "getAsnSequence"], sources=["crypto/pubkey/dh_params.c", "crypto/math/pstm.c"],
+         termination_loops=["psPkcs3ParseDhParamBin"], native_timeout_s=20,
+         assumptions=["dh_params: pstm_read_asn is a contract stub yielding arbitrary integers (privateValueLength: any value of <= 2 digits, split into the ranges 0..40 and >= 16300); pstm_unsigned_bin_size / pstm_init_size / pstm_clear are stubs"],
+         unwind=8,
+         cases=[dict(name="small", defs={"VF_RANGE": 0}, unwindset={"psPkcs3ParseDhParamBin:/while\\(pstm_cmp_d/": 45}),
+                dict(name="large", defs={"VF_RANGE": 1}, unwindset={"psPkcs3ParseDhParamBin:/while\\(pstm_cmp_d/": 16390}, cap_s=1200, checks=[])]))
